@@ -116,10 +116,13 @@ func vFrrSeconds(d *metav1.Duration) string {
 	return d.Duration.String()
 }
 
-func vFrrLexList(in []string, bad *[]string) []verifkit.FrrPrefix {
+func vFrrLexList(in []string, bad *[]string, codes bool) []verifkit.FrrPrefix {
 	out := []verifkit.FrrPrefix{}
 	for _, s := range in {
 		p, ok := verifkit.FrrLexPrefix(s)
+		if !codes {
+			p.Codes = nil
+		}
 		if !ok {
 			*bad = append(*bad, s)
 			continue
@@ -142,7 +145,7 @@ func vFrrProject(c *frrv1beta1.FRRConfiguration) vFrrCR {
 		var bad []string
 		pr := vFrrCRRouter{Asn: strconv.FormatUint(uint64(r.ASN), 10), ID: r.ID, Vrf: r.VRF, NImports: len(r.Imports),
 			Neighbors: []vFrrCRNeighbor{}}
-		pr.Prefixes = vFrrLexList(r.Prefixes, &bad)
+		pr.Prefixes = vFrrLexList(r.Prefixes, &bad, false)
 		for _, n := range r.Neighbors {
 			pn := vFrrCRNeighbor{Address: n.Address, Iface: n.Interface, Asn: strconv.FormatUint(uint64(n.ASN), 10),
 				Dyn: string(n.DynamicASN), Srcaddr: n.SourceAddress, Password: n.Password,
@@ -154,13 +157,13 @@ func vFrrProject(c *frrv1beta1.FRRConfiguration) vFrrCR {
 			if n.Port != nil {
 				pn.Port = strconv.FormatUint(uint64(*n.Port), 10)
 			}
-			pn.Allowed = vFrrLexList(n.ToAdvertise.Allowed.Prefixes, &pn.BadPrefixes)
+			pn.Allowed = vFrrLexList(n.ToAdvertise.Allowed.Prefixes, &pn.BadPrefixes, true)
 			for _, lp := range n.ToAdvertise.PrefixesWithLocalPref {
 				pn.WithLocalPref = append(pn.WithLocalPref, vFrrCRLocalPref{Lp: strconv.FormatUint(uint64(lp.LocalPref), 10),
-					Prefixes: vFrrLexList(lp.Prefixes, &pn.BadPrefixes)})
+					Prefixes: vFrrLexList(lp.Prefixes, &pn.BadPrefixes, false)})
 			}
 			for _, cp := range n.ToAdvertise.PrefixesWithCommunity {
-				e := vFrrCRCommunity{Raw: cp.Community, C: cp.Community, Prefixes: vFrrLexList(cp.Prefixes, &pn.BadPrefixes)}
+				e := vFrrCRCommunity{Raw: cp.Community, C: cp.Community, Prefixes: vFrrLexList(cp.Prefixes, &pn.BadPrefixes, false)}
 				if strings.HasPrefix(cp.Community, "large:") {
 					e.Large, e.C = true, strings.TrimPrefix(cp.Community, "large:")
 				}
